@@ -180,6 +180,20 @@ CHECKS += [
           "computed so that tasks touching the inputs run.",
   "technique": "explicit-state BFS over operation histories on the real implementation with an immutability invariant checked in every reached state"},
 ]
+CHECKS += [
+ {"property_id": "C09",
+  "text": "Bounded exhaustive exploration of the Dask backend: every catalogue operation (64, incl. pipelines, two-output ufuncs, "
+          "signal_transform with dtype change / other signal_type) on 5 signal configurations x EVERY chunk composition of each sample "
+          "axis x time axis whole or split x synchronous and threaded schedulers (multiprocess on the finest layout), with a "
+          "sentinel delayed input proving nothing is computed while the result is built; for every operation on the finest layout "
+          "EVERY task order within 1 (2 thorough) deviations of Dask's own order under a controlled scheduler; 6 pairs of "
+          "pulsarbat task bodies on two threads under the cooperative scheduler with <= 1 (2) preemptions; reader Dask reads with a "
+          "counting wrapper around baseband.open, chunks=, downstream laziness and two readers in one graph.",
+  "note": "Trusts the NumPy-path result as reference (itself checked by C01-C20) and Dask's own graph/state bookkeeping used by the "
+          "controlled scheduler; real thread/process pools are run once per case, their internal schedules are covered only through "
+          "the two explorers; a layout may be rejected (must raise) only when an FFT axis is chunked.",
+  "technique": "stateless model checking of the implementation: deviation-bounded exhaustive exploration of Dask task orders and preemption-bounded thread interleavings under controlled schedulers, plus exhaustive chunk-layout enumeration with a differential oracle"},
+]
 _ALL = ["C%02d" % i for i in range(1, 21)]
 NOT_APPLICABLE = [{"property_id": p, "reason": "check not yet built in this session (planned in DESIGN.md; no claim made yet)"}
                   for p in _ALL if p not in {c["property_id"] for c in CHECKS}]
